@@ -64,7 +64,7 @@ def _axis_worker(item):
             writers.numpy_to_sgz(p, cube, 32, (4, 4, -1), ilines=il.astype(dt), xlines=xl.astype(dt), samples=np.arange(4) * 4.0)
         else:
             sgy = p + '.sgy'
-            inputs.write_segy(sgy, cube, il, xl, np.arange(4) * 4.0)
+            inputs.write_segy(sgy, cube, il, xl, np.arange(4) * 4.0, sorting=('il', 'xl')[(ci // 3) % 2])       # inline- or crossline-sorted file
             with segyio.open(sgy, strict=False) as s:
                 assert np.array_equal(np.asarray(s.ilines, dtype=np.int64), il) and np.array_equal(np.asarray(s.xlines, dtype=np.int64), xl)
             writers.segy_to_sgz(sgy, p, 32, None, reduce_iops=bool(ci % 2))
